@@ -29,7 +29,17 @@ var attempts int
 
 type recW struct{ id int }
 
+// writeHook, when set, runs at the start of every Write of a recording writer, before the payload is
+// looked at (C02: a destination that itself logs through another logger while it is being written to)
+var writeHook func()
+
 func (w *recW) Write(p []byte) (int, error) {
+	if writeHook != nil {
+		h := writeHook
+		writeHook = nil // not re-entrant
+		h()
+		writeHook = h
+	}
 	attempts++
 	events = append(events, event{W: w.id, Kind: "write", Payload: append([]byte(nil), p...)})
 	if failPlan != nil && failPlan(w.id, attempts-1) {
@@ -237,6 +247,7 @@ func resetProcess(snap *slog.VerifRegistry) {
 	events = nil
 	attempts = 0
 	failPlan = nil
+	writeHook = nil
 	sharedAttrsCache = map[string]slog.Attrs{}
 }
 
